@@ -80,6 +80,8 @@ def _rule_kwargs(shape, interval, count, delta):
             v = vals[0] + delta
             if v == 0 and lo < 0:
                 v = 1
+            if k == "bysetpos":      # never beyond the shape's own position: an empty rule spins to year 9999 (2-20 s per path)
+                lo, hi = -abs(vals[0]), abs(vals[0])
             vals[0] = max(lo, min(hi, v))
             kw[k] = vals
             break
@@ -121,12 +123,13 @@ def h_roundtrip(si, spelling):
                 ctx.fail("rrulestr(str(rule)) raised %s for %r" % (type(e).__name__, text), key=key + ":raises")
             ctx.check(state(back) == state(rule), "rrulestr(str(rule)) has a different normalised state: %r" % (text,), key=key + ":state")
             if not shape.get("easter"):
+                ra, rb = rule, back
                 try:
-                    a = list(itertools.islice(rule, 4))
+                    a = list(itertools.islice(ra, 4))
                 except Exception:       # iteration defects of the rule itself are C01's subject
                     a = None
                 if a is not None:
-                    b = list(itertools.islice(back, 4))
+                    b = list(itertools.islice(rb, 4))
                     ctx.check(a == b, "rrulestr(str(rule)) generates different occurrences", key=key + ":occurrences")
             # (2) independent RFC spelling == keyword construction
             if "byeaster" not in kw:
@@ -261,4 +264,8 @@ OUTSIDE = ["aware starts in str(rule) (the property restricts that half to naive
 def run(tier, seed, jobs):
     cs = report.filter_cells(cells(tier))
     res = chx.run_cells(cs, jobs)
-    return report.aggregate("C13", res, assumptions=ASSUMPTIONS, bounds=dict(cells=len(cs)), outside=OUTSIDE, level="model_checking")
+    return report.aggregate("C13", res, assumptions=ASSUMPTIONS, bounds=dict(cells=len(cs)), outside=OUTSIDE, level="other",
+                            explanation="str(rule)/rrulestr round trips: rule parameters and the naive start are symbolic "
+                            "CrossHair/z3 variables (year pinned per cell: symbolic calendar years make every rrule query "
+                            "unknown), each path's witness is replayed natively and the occurrence prefix of the re-parsed rule "
+                            "is compared with the original; rruleset/option cells are pinned-input native replays")
